@@ -44,6 +44,10 @@ class _merge1d:
     bound_note = BOUND
     configs = staticmethod(_merge_cfgs)
 
+    def thorough_extra():
+        return [{"m": 4, "amount": 2, "inplace": True, "dtype": "int64"}, {"m": 5, "amount": 2, "inplace": False, "dtype": "int64"},
+                {"m": 5, "amount": 3, "inplace": True, "dtype": "float64"}, {"m": 4, "amount": 4, "inplace": False, "dtype": "int64"}]
+
     def inputs(b):
         c = b.cfg
         return dict(self=mk_hist(b, "h", 1, c.m, "gapped", c.dtype), amount=c.amount, inplace=c.inplace)
@@ -164,6 +168,9 @@ class _getitem_slice:
     bounded = True
     bound_note = BOUND
     configs = staticmethod(_slice_cfgs)
+
+    def thorough_extra():
+        return [{"m": 4, "start": s, "stop": e, "step": None} for s in (None, 1, -3, 3) for e in (None, 2, 4, -1)]
 
     def inputs(b):
         c = b.cfg
